@@ -95,6 +95,24 @@ def _wrong_value_np(node):
     return np.str_("not-a-number")
 
 
+def _wrong_value_like(node, rng_pick):
+    """A wrong-typed return value that a lenient conversion (float(), str(), iteration) would swallow: a number spelled as
+    a string or bytes, a one-element list, a Decimal - for a numeric quantity; a number-like for a category."""
+    import decimal
+
+    k = node["k"]
+    if k == "Categorize":
+        return [decimal.Decimal("1.5"), [1.0], b"a", 7][rng_pick % 4]
+    if k == "Bag":
+        r = node["range"]
+        if r == "S":
+            return [b"a", 1, ["a"], decimal.Decimal("2")][rng_pick % 4]
+        if r == "N2":
+            return ["35", ("1.0", "2.0"), [1.0, "2"], b"12"][rng_pick % 4]
+        return ["3.5", " 7 ", b"300", [2.0]][rng_pick % 4]
+    return ["12.5", " -7 ", "nan", b"300", [4.0], "1e3", "inf"][rng_pick % 7]
+
+
 def _fault_quantity(node):
     f, f2 = node["f"], node.get("f2")
     wrong = _wrong_value(node)
@@ -108,6 +126,8 @@ def _fault_quantity(node):
                 raise (FAULT.get("exc") or InjectedFault)("injected failure in the quantity of %s" % node["k"])
             if FAULT["mode"] == "wrong-np":
                 return wrong_np
+            if FAULT["mode"] == "wrong-like":
+                return _wrong_value_like(node, FAULT.get("pick", 0))
             return wrong
         return (d[f], d[f2]) if n2 else d[f]
 
